@@ -147,7 +147,7 @@ func (u *ModelUpdates) AddRowUpdate(dbModel model.DatabaseModel, table, uuid str
 		if err != nil {
 			return err
 		}
-		changed, err := updateModel(dbModel, table, info, ru.New, nil)
+		changed, err := updateModel(dbModel, table, info, ru.New, nil, false)
 		if !changed || err != nil {
 			return err
 		}
@@ -303,7 +303,7 @@ func (u *ModelUpdates) addUpdateOperation(dbModel model.DatabaseModel, table, uu
 	}
 
 	delta := ovsdb.NewRow()
-	changed, err := updateModel(dbModel, table, newInfo, &op.Row, &delta)
+	changed, err := updateModel(dbModel, table, newInfo, &op.Row, &delta, true)
 	if err != nil {
 		return err
 	}
@@ -461,19 +461,25 @@ func (u *ModelUpdates) addDeleteOperation(dbModel model.DatabaseModel, table, uu
 	return err
 }
 
-func updateModel(dbModel model.DatabaseModel, table string, info *mapper.Info, update, modify *ovsdb.Row) (bool, error) {
-	return updateOrModifyModel(dbModel, table, info, update, modify, false)
+func updateModel(dbModel model.DatabaseModel, table string, info *mapper.Info, update, modify *ovsdb.Row, enforceMutability bool) (bool, error) {
+	return updateOrModifyModel(dbModel, table, info, update, modify, false, enforceMutability)
 }
 
 func modifyModel(dbModel model.DatabaseModel, table string, info *mapper.Info, modify *ovsdb.Row) (bool, error) {
-	return updateOrModifyModel(dbModel, table, info, modify, nil, true)
+	// a modify row reports a change that has happened (a notification, or the
+	// pruning of weak references at commit): column mutability does not apply
+	return updateOrModifyModel(dbModel, table, info, modify, nil, true, false)
 }
 
 // updateOrModifyModel updates info about a model with a given row containing
 // the change. The change row itself can be interpreted as an update or a
 // modify. If the change is an update and a modify row is provided, it will be
 // filled with the modify data.
-func updateOrModifyModel(dbModel model.DatabaseModel, table string, info *mapper.Info, changeRow, modifyRow *ovsdb.Row, isModify bool) (bool, error) {
+//
+// Mutability of the columns is enforced only on request: it restricts the
+// update operations of a transaction, not the changes a server reports (weak
+// reference pruning changes immutable columns too).
+func updateOrModifyModel(dbModel model.DatabaseModel, table string, info *mapper.Info, changeRow, modifyRow *ovsdb.Row, isModify, enforceMutability bool) (bool, error) {
 	schema := dbModel.Schema.Table(table)
 	var changed bool
 
@@ -496,7 +502,7 @@ func updateOrModifyModel(dbModel model.DatabaseModel, table string, info *mapper
 
 		if isModify {
 			differenceNative, isDifferent := applyDifference(currentNative, updateNative)
-			if isDifferent && !colSchema.Mutable() {
+			if isDifferent && enforceMutability && !colSchema.Mutable() {
 				return false, ovsdb.NewConstraintViolation(fmt.Sprintf("column %q of table %q is not mutable", column, table))
 			}
 			changed = changed || isDifferent
@@ -506,7 +512,7 @@ func updateOrModifyModel(dbModel model.DatabaseModel, table string, info *mapper
 			}
 		} else {
 			differenceNative, isDifferent := difference(currentNative, updateNative)
-			if isDifferent && !colSchema.Mutable() {
+			if isDifferent && enforceMutability && !colSchema.Mutable() {
 				return false, ovsdb.NewConstraintViolation(fmt.Sprintf("column %q of table %q is not mutable", column, table))
 			}
 			changed = changed || isDifferent
